@@ -191,12 +191,12 @@ func runBucketCase(r *Run, bases *baseStates, bc *bucketCase) {
 		}()
 	}
 	for _, id := range bc.Schedule {
-		sched.Step(id, 2*time.Second)
+		sched.Step(id, 15*time.Second)
 	}
 	for alive := true; alive; {
 		alive = false
 		for id := 0; id < 2; id++ {
-			if _, ok := sched.Step(id, 2*time.Second); ok {
+			if _, ok := sched.Step(id, 15*time.Second); ok {
 				alive = true
 			}
 		}
